@@ -29,10 +29,25 @@ for T in $TARGETS; do
     LOG="$ROOT/fuzz/.run.$ID.$T.log"
     BIN="$ROOT/fuzz/target/x86_64-unknown-linux-gnu/release/$T"
     "$BIN" "$CORPUS" "$ROOT/fuzz/seeds/$T" -runs="$RUNS" -seed="$SEED" -len_control=0 -max_len=4096 \
-        -print_final_stats=1 -artifact_prefix="$ART/" -timeout=60 -rss_limit_mb=4096 >"$LOG" 2>&1
+        -print_final_stats=1 -artifact_prefix="$ART/" -timeout=300 -rss_limit_mb=4096 >"$LOG" 2>&1
     code=$?
-    crash="$(ls "$ART" 2>/dev/null | head -1)"
-    if [ -n "$crash" ]; then
+    # crash-* / leak-* = oracle failure or panic; timeout-* is a verdict only for C03 ("without
+    # hanging"); oom-* and timeouts elsewhere are resource limits, i.e. inconclusive (exit 2);
+    # slow-unit-* files are informational
+    crash="$(ls "$ART" 2>/dev/null | grep -E '^(crash|leak)-' | head -1)"
+    limit="$(ls "$ART" 2>/dev/null | grep -E '^(timeout|oom)-' | head -1)"
+    skip_rc=""
+    if [ -z "$crash" ] && [ -n "$limit" ]; then
+      if [ "$ID" = "C03" ] && [ "${limit#timeout-}" != "$limit" ]; then
+        crash="$limit"
+      else
+        echo "INCONCLUSIVE: $T produced $limit (resource limit, not a verdict for $ID)" >&2
+        echo 2 > "$ART/.rc"; skip_rc=1
+      fi
+    fi
+    if [ -n "${skip_rc:-}" ]; then
+      :
+    elif [ -n "$crash" ]; then
       mkdir -p "$ROOT/replays/$ID"
       dest="$ROOT/replays/$ID/fuzz-$T-$(sha1sum "$ART/$crash" | cut -c1-12)"
       cp "$ART/$crash" "$dest"
